@@ -67,7 +67,11 @@ int main(void) {
                     SHA256_CTX sc; SHA256_Init(&sc);
                     while((r = zck_read(zck, buf, 4096)) > 0 && calls++ < 4000000) { SHA256_Update(&sc, buf, r); tot += r; }
                     unsigned char dg[32]; SHA256_Final(dg, &sc);
-                    printf(" r=%zd/%zu/", r, tot); sha_hex(dg); free(buf); break; }
+                    printf(" r=%zd/%zu/", r, tot); sha_hex(dg);
+                    /* the verdict of a full read is given by zck_close (data checksum): taken when the read
+                       is the last operation of the sequence and the only read in it */
+                    if(o[1] == 0 && strchr(ops, 'r') == o) printf("/c%d", r == 0 ? zck_close(zck) : 0);
+                    free(buf); break; }
                 case '-': continue;
                 default: printf(" ?");
                 }
